@@ -81,6 +81,26 @@ CLAIMED = {
                  "bounds with +-2 truncation, convex mean/var update, PETS bounds / mid-point / plan[0] chain.",
         "note": "Trusted: clip/tanh/truncated_normal ranges, convexity argument for the CEM mean. Not decided: rounding at the bound itself; SAC's unclipped Gaussian sample is outside the property's list.",
     },
+    "C15": {
+        "technique": "static analysis: exhaustive enumeration of the acyclic paths of the loop-free assessment function with polynomial values for the state fields (per-path abstract interpretation); control dependence and linear trip-count normal form of the release loop in train_td7",
+        "level": "Decides for all histories (every path of a loop-free function): released steps are 0 or old+steps_per_episode (conservation), the three window counters reset exactly on releasing paths, "
+                 "checkpoint flag exactly on `not(min<best) and episodes==max` with best := min, early cut exactly on min<best, window switch only in the release block under the chained comparison evaluated "
+                 "before the reset; train_td7 calls the assessment at episode ends only, runs the release loop exactly training_steps times with one epoch increment and one train step each, and copies the checkpoint under the flag.",
+        "note": "Trusted: chained-comparison semantics. Not decided: that the switch happens once (needs the arithmetic fact that epoch only grows).",
+    },
+    "C16": {
+        "technique": "static analysis: polynomial identities (weights normalisation, mean recombination, capped step size, CEM convex update), per-path evaluation of the incumbent update, structural sibling agreement of flat_params / set_params",
+        "level": "Decides the bookkeeping and formula clauses for all inputs: weights == w/sum(w) with the log-rank w; incumbent (fitness, iteration, parameters) replaced as a whole iff fitness_k <= best from the evaluated index k, "
+                 "sign handling for maximisation; mean == weighted best-mu candidates, last_mean == previous mean; var growth capped by exp(0.6)^2; flat/set use the same Param filter, leaf order and consecutive slices; CEM elites = top-k, bounds order.",
+        "note": "NOT decided (numeric invariants, no sound static argument in reach): positivity / monotonicity of the weights (properties of log), symmetry and positive variances of the covariance, behaviour for non-finite fitness, "
+                "the eigendecomposition schedule, that CEM proposals stay in bounds numerically (C10 decides the formula premises).",
+    },
+    "C18": {
+        "technique": "static analysis: polynomial identities with case split over min(e, delta) for Huber, spec-expression identity for cross-entropy / decoding / AvgL1 / schedule / masked loss, weight algebra of the two-hot encoder, symbolic shapes for the masked loss",
+        "level": "Decides for all real inputs (formula identity): Huber == 0.5 e^2 inside and delta(e-0.5 delta) outside; CE == -sum(two_hot*log_softmax); decoding; AvgL1 == x/max(mean|x|,eps); schedule form and length; masked loss "
+                 "form with per-sample broadcasting; two-hot weights (1-w, w) at adjacent indices with the interpolation weight (rows sum to one and decode to x by construction).",
+        "note": "NOT decided: the two-hot lower-edge search (masked argmin over float differences, exact bin edges), monotonicity of linspace, float rounding.",
+    },
 }
 
 NOT_APPLICABLE = {}
